@@ -243,10 +243,8 @@ def quitLoop : List Msg → FS → Bytes → FS × Bytes
 
 /-- the limit pop3_top hands to blast(): second number + 1 (wrapping), 0 when absent -/
 def topLimit (arg : Bytes) : Nat :=
-  let a1 := arg.drop (scanUlong arg).2
-  let a2 := a1.dropWhile (· = SP)
-  let (n, pos) := scanUlong a2
-  if pos ≠ 0 then (n + 1) % U64 else 0
+  let a2 := (arg.drop (scanUlong arg).2).dropWhile (· = SP)
+  if (scanUlong a2).2 ≠ 0 then ((scanUlong a2).1 + 1) % U64 else 0
 
 /-- one dispatched command: new state, bytes written to descriptor 1, exit code if the process ends -/
 def exec (s : Sess) (verb arg : Bytes) : Sess × Bytes × Option Nat :=
@@ -321,6 +319,12 @@ def feedEv (r : Run) : Ev → Run
   | .vanish p => match r.exit with
     | some _ => r
     | none => { r with s := { r.s with fs := fsUnlink r.s.fs p } }
+
+theorem feedEv_data (r : Run) (b : Bytes) : feedEv r (.data b) = b.foldl feedByte r := rfl
+theorem feedEv_vanish (r : Run) (p : Bytes) : feedEv r (.vanish p) =
+    match r.exit with
+    | some _ => r
+    | none => { r with s := { r.s with fs := fsUnlink r.s.fs p } } := rfl
 
 /-- the result of a whole run of main(): bytes on descriptor 1, bytes on descriptor 2, exit code,
 maildir afterwards -/
@@ -422,18 +426,21 @@ structure PResult where
   code : Nat
   deriving Repr
 
-/-- main() with both arguments present. After doanddie() the process always exits 1. -/
-def pmain (pid now : Nat) (host : Bytes) (child : Child) (input : Bytes) : PResult :=
-  let r := input.foldl pfeedByte { out := greeting pid now host }
+/-- what happens once the command loop has stopped. After doanddie() the process always exits 1. -/
+def pfinish (pid now : Nat) (host : Bytes) (child : Child) (r : PRun) : PResult :=
   match r.act with
   | .cont => { out := r.out, fd3 := none, code := 1 }
   | .exit c => { out := r.out, fd3 := none, code := c }
   | .auth a =>
-    let tail := match child with
-      | .crashed => errLine "aack, child crashed"
-      | .exited 0 => []
-      | .exited _ => errLine "authorization failed"
-    { out := r.out ++ tail, fd3 := some (fd3 pid now host a), code := 1 }
+    { out := r.out ++ (match child with
+        | .crashed => errLine "aack, child crashed"
+        | .exited 0 => []
+        | .exited _ => errLine "authorization failed"),
+      fd3 := some (fd3 pid now host a), code := 1 }
+
+/-- main() with both arguments present -/
+def pmain (pid now : Nat) (host : Bytes) (child : Child) (input : Bytes) : PResult :=
+  pfinish pid now host child (input.foldl pfeedByte { out := greeting pid now host })
 
 end Popup
 
